@@ -26,7 +26,7 @@ ENZ = "BsaI"
 LONG = list(range(21, 33))       # a 12-entry list: two-digit citation indices
 V_REFS = [[], [1], [1, 2], [2, 1, 3], LONG]
 M_REFS = [[], [1], [4], [4, 1], [2, 4, 1], [1] + LONG[:11]]
-KEPT_CITES = [None, [1], [2], [1, 2], [2, 1], [3], [1, 3]]
+KEPT_CITES = [None, [1], [2], [1, 2], [2, 1], [3], [1, 3], [1, 1], [2, 1, 2]]
 KEPT2_CITES = [None, "last", "first"]
 DROPPED_CITES = [None, [1]]
 
